@@ -278,6 +278,11 @@ def handle_path_command(args: argparse.Namespace) -> None:  # noqa: PLR0912
             raise
         sys.stderr.write(f"target document json decode error: {err}\n")
         sys.exit(1)
+    except UnicodeDecodeError as err:
+        if args.debug:
+            raise
+        sys.stderr.write(f"target document decode error: {err}\n")
+        sys.exit(1)
     except JSONPathTypeError as err:
         # Type errors are currently only occurring are compile-time.
         if args.debug:
@@ -310,6 +315,11 @@ def handle_pointer_command(args: argparse.Namespace) -> None:
             raise
         sys.stderr.write(f"target document json decode error: {err}\n")
         sys.exit(1)
+    except UnicodeDecodeError as err:
+        if args.debug:
+            raise
+        sys.stderr.write(f"target document decode error: {err}\n")
+        sys.exit(1)
     except JSONPointerError as err:
         if args.debug:
             raise
@@ -329,6 +339,11 @@ def handle_patch_command(args: argparse.Namespace) -> None:
             raise
         sys.stderr.write(f"patch document json decode error: {err}\n")
         sys.exit(1)
+    except UnicodeDecodeError as err:
+        if args.debug:
+            raise
+        sys.stderr.write(f"patch document decode error: {err}\n")
+        sys.exit(1)
 
     if not isinstance(patch, list):
         sys.stderr.write(
@@ -347,6 +362,11 @@ def handle_patch_command(args: argparse.Namespace) -> None:
         if args.debug:
             raise
         sys.stderr.write(f"target document json decode error: {err}\n")
+        sys.exit(1)
+    except UnicodeDecodeError as err:
+        if args.debug:
+            raise
+        sys.stderr.write(f"target document decode error: {err}\n")
         sys.exit(1)
     except JSONPatchError as err:
         if args.debug:
